@@ -175,4 +175,55 @@ theorem fallback_when_tokenizer_fails (line : Str) (cursor : Nat) (h : 0 < byteL
 example : highlight (.failed "'é".toList) 0 = [⟨0, 3, .Default⟩] := by
   simp [highlight, highlightSt, hlProg, appendSpan, HS.init, byteLen, Char.utf8Size]
 
+/-- **The span boundaries are a function of the line and of what the tokenizer / word parser make of
+it — nothing else.**  Two trees with the same geometry (texts, token spans, piece offsets, nesting:
+what the parsers compute from the line and their option flags) give the same byte ranges, and the
+same debug-assertion outcome, whatever the cursor and however the shell classifies the words
+(aliases, functions, builtins, keywords, `PATH`, cwd).  Shell state outside the parser options
+and the line editor's cursor can only recolour spans, never move one. -/
+theorem ranges_depend_only_on_geometry (p q : Prog) (c c' : Nat) (hg : geomProg p = geomProg q) :
+    ranges (highlight p c) = ranges (highlight q c') ∧
+      (highlightSt p c).trap = (highlightSt q c').trap := by
+  have hl : p.line = q.line := by rw [← geomProg_line p, ← geomProg_line q, hg]
+  have s1 := sim_hlProg p.line c 0 p 0 HS.init HS.init (Sim.refl _)
+  have s2 := sim_hlProg q.line c' 0 q 0 HS.init HS.init (Sim.refl _)
+  rw [hg, hl] at s1
+  have s := s1.trans s2.symm
+  rw [← hl] at s
+  refine ⟨?_, ?_⟩
+  · have := s.1
+    simpa [highlight, highlightSt, hl] using this
+  · have := s.2.2
+    simpa [highlightSt, hl] using this
+
+/-- in particular the boundaries do not depend on the cursor (any byte offset, also inside a char) -/
+theorem ranges_independent_of_cursor (p : Prog) (c c' : Nat) :
+    ranges (highlight p c) = ranges (highlight p c') :=
+  (ranges_depend_only_on_geometry p p c c' rfl).1
+
+/-- the sample line in another shell: `echo` is an alias, `ls` is not on `PATH`, `é` names a function -/
+def sampleTreeOtherShell : Prog :=
+  .ok "echo \"$(ls é)\" 🚀".toList
+    [.word 0 4 "echo".toList .alias [.leaf 0 4 .text],
+     .word 5 14 "$(ls é)".toList .notFound
+       [.dq 0 10 [.sub 1 9 2 (.ok "ls é".toList
+          [.word 0 2 "ls".toList .notFound [.leaf 0 2 .text],
+           .word 3 4 "é".toList .function [.leaf 0 2 .text]])]],
+     .word 15 16 "🚀".toList .notFound [.leaf 0 4 .text]]
+
+/-- non-vacuity: same geometry, different shell state and cursor (12 is inside `é`) — and the kinds
+really differ, so the theorem is not about equal inputs -/
+example : geomProg sampleTree = geomProg sampleTreeOtherShell ∧
+    highlight sampleTree 7 ≠ highlight sampleTreeOtherShell 12 := by
+  constructor
+  · simp [sampleTree, sampleTreeOtherShell, geomProg, geomToks, geomPieces, geomPiece]
+  · have e : highlight sampleTree 7 = (highlightSt sampleTree 7).spans := rfl
+    rw [e, sampleTree_spans]
+    intro h
+    have h0 := congrArg (fun l => l.head?.map (·.kind)) h
+    revert h0
+    simp [highlight, highlightSt, sampleTreeOtherShell, hlProg, hlToks, hlPieces, hlPiece, appendSpan, skipAhead,
+      setMissing, HS.init, byteOff, byteLen, kindForWord, classify, leafKind, Prog.line, Char.utf8Size,
+      isBoundary, isBoundaryFrom]
+
 end BrushVerif.C19
